@@ -292,6 +292,20 @@ func c08Alphabet(n int) []string {
 	return a
 }
 
+// disabledFlags: the Disabled flag of every child spec as the supervisor reports it
+func disabledFlags(s *tsup) string {
+	out := ""
+	seen := map[gen.Atom]bool{}
+	for _, c := range s.Children() {
+		if seen[c.Spec] {
+			continue
+		}
+		seen[c.Spec] = true
+		out += fmt.Sprintf("%s=%v ", c.Spec, c.Disabled)
+	}
+	return out
+}
+
 func idx(x string) int {
 	for i, n := range specNames {
 		if string(n) == x {
@@ -452,6 +466,7 @@ func c08Run(cfg c08cfg, alphabet []string, hist []int, fail func(kind, format st
 				}
 				i := idx(parts[1])
 				var err error
+				flagsBefore := disabledFlags(st.s)
 				st.guard(func() {
 					switch parts[0] {
 					case "start":
@@ -466,8 +481,17 @@ func c08Run(cfg c08cfg, alphabet []string, hist []int, fail func(kind, format st
 					// a management call while a restart or a stop is in progress: it may be refused;
 					// if it is accepted the model stops predicting, the invariants (no panic, no
 					// stale listing, no stuck shutdown) stay in force
-					_ = err
-					m.clean = false
+					if err == ErrSupervisorStrategyActive {
+						// refused because a restart or stop is in progress: then it must not have changed anything
+						// (other errors, e.g. a name still taken by the instance that is being stopped, are outside this clause)
+						if after := disabledFlags(st.s); after != flagsBefore {
+							fail("refused-call-had-an-effect", "after %v: %s returned %v, yet the disabled flags of the children changed from %s to %s", here(step), alphabet[hist[step]], err, flagsBefore, after)
+							return ""
+						}
+						m.clean = false
+					} else {
+						m.clean = false
+					}
 					st.run()
 					if !check(step) {
 						return ""
